@@ -14,6 +14,7 @@ use num_traits::ops::overflowing::{OverflowingAdd, OverflowingMul, OverflowingSu
 use num_traits::ops::saturating::{SaturatingAdd, SaturatingMul, SaturatingSub};
 use num_traits::ops::wrapping::{WrappingAdd, WrappingMul, WrappingNeg, WrappingSub};
 use num_traits::{NumCast, One, Zero};
+use std::num::Wrapping;
 use rayon::prelude::*;
 use std::collections::BTreeMap;
 use std::fmt::Debug;
@@ -52,6 +53,8 @@ fn vtruth(n: usize, b: bool) -> VOut<()> { if b { VOut::Val(vec![(); n], false) 
 trait Same { fn same(&self, o: &Self) -> bool; }
 macro_rules! same_eq { ($($t:ty),*) => { $(impl Same for $t { fn same(&self, o: &Self) -> bool { self == o } })* } }
 same_eq!(i8, u8, i16, u16, i32, u32, i64, u64, isize, usize, char, (), bool);
+impl Same for Wrapping<i8> { fn same(&self, o: &Self) -> bool { self.0 == o.0 } }
+impl Same for Wrapping<u8> { fn same(&self, o: &Self) -> bool { self.0 == o.0 } }
 impl Same for f32 { fn same(&self, o: &Self) -> bool { self.to_bits() == o.to_bits() || (self.is_nan() && o.is_nan()) } }
 impl Same for f64 { fn same(&self, o: &Self) -> bool { self.to_bits() == o.to_bits() || (self.is_nan() && o.is_nan()) } }
 
@@ -76,6 +79,10 @@ trait Prim: Copy + Debug + PartialEq + Same + Send + Sync + Zero + One + NumCast
     /// 16-bit types, +-2^k+-1 for every k of the wider integers, and for floats every pattern of the 16 high bits (sign, exponent, leading
     /// mantissa bits; every 16th in quick) with the low bits all zero and all one
     fn sweep(_thorough: bool) -> Vec<Self> { Self::alpha() }
+    /// pairs of non-zero values whose sum is zero (for the integers also with wrapping arithmetic): is_zero of a value holding them is false
+    fn cancel() -> Vec<(Self, Self)>;
+    /// pairs of values different from one whose (wrapping) product is one: is_one of a value holding them is false
+    fn unit_pairs() -> Vec<(Self, Self)>;
 }
 
 trait IntElem: Prim + Eq
@@ -126,6 +133,13 @@ macro_rules! int_elem { ($($t:ident $bits:expr, $signed:expr);*) => { $(
         fn alpha() -> Vec<$t> { int_cast_alpha::<$t>() }
         fn small(j: usize) -> $t { (j % 50 + 2) as $t }
         fn sweep(thorough: bool) -> Vec<$t> { int_sweep::<$t>(thorough) }
+        fn cancel() -> Vec<($t, $t)> {
+            let z: $t = 0;
+            let mut v = vec![(1 as $t, z.wrapping_sub(1)), (z.wrapping_sub(1), 1 as $t), (<$t>::MAX, z.wrapping_sub(<$t>::MAX)), (<$t>::MIN, <$t>::MIN), (<$t>::MAX / 2 + 1, <$t>::MAX / 2 + 1), (7 as $t, z.wrapping_sub(7))];
+            v.retain(|&(a, b)| a != 0 && b != 0 && a.wrapping_add(b) == 0);
+            v
+        }
+        fn unit_pairs() -> Vec<($t, $t)> { let m = (0 as $t).wrapping_sub(1); let mut v = vec![(m, m)]; v.retain(|&(a, b)| a != 1 && b != 1 && a.wrapping_mul(b) == 1); v }
     }
     impl IntElem for $t {
         const BITS: u32 = $bits; const SIGNED: bool = $signed;
@@ -199,6 +213,8 @@ macro_rules! float_elem { ($($t:ident $bits:ident $shift:expr, $exp:expr);*) => 
             for x in v { if !out.iter().any(|o| o.to_bits() == x.to_bits()) { out.push(x); } }
             out
         }
+        fn cancel() -> Vec<($t, $t)> { let sub = <$t>::from_bits(1); vec![(1.0, -1.0), (-1.0, 1.0), (sub, -sub), (<$t>::MAX, <$t>::MIN), (3.5, -3.5), (<$t>::INFINITY, <$t>::NEG_INFINITY)] }
+        fn unit_pairs() -> Vec<($t, $t)> { vec![(2.0, 0.5), (-1.0, -1.0), (0.25, 4.0)] }
         fn small(j: usize) -> $t { (j % 50) as $t + 2.5 }
         fn sweep(thorough: bool) -> Vec<$t> {
             let mut v = <$t as Prim>::alpha();
@@ -303,7 +319,16 @@ fn ctx_pair<T: IntElem>(fam: Fam, j: usize, hazard: bool) -> (T, T) {
     } };
     (T::of(a), T::of(b))
 }
-const CTX: [&str; 3] = ["others benign", "one other lane hazardous", "all other lanes hazardous"];
+const CTX: [&str; 4] = ["others benign", "one other lane hazardous", "all other lanes hazardous", "every other lane holds equal operands"];
+/// context 3: both operands of a non-varied lane are the same benign lane-dependent value (no overflow, no zero divisor), so that the whole
+/// vectors are equal whenever the varied lane holds (a, a): reaches shortcuts keyed on `self == v` / on the same object passed twice
+fn eq_pair<T: IntElem>(fam: Fam, j: usize) -> (T, T) {
+    let k = j as i128;
+    let v = match fam { Fam::Add => k % 50 + 1, Fam::Sub => k % 50 + 2, Fam::Mul => k % 9 + 2, Fam::Div => k % 7 + 2, Fam::Neg => 1 };
+    let v = if T::SIGNED && k % 2 == 1 { -v } else { v };
+    (T::of(v), T::of(v))
+}
+const EQ_CLASSES: [&str; 2] = ["equal operands in every lane (self == v)", "same object passed as both operands"];
 
 struct Tab<T> { cells: Vec<Cell<T>>, inexact: Vec<bool> }
 
@@ -323,14 +348,14 @@ fn int_lifts<V: LiftVec<T>, T: IntElem>(s: &Section, full8: bool) {
     };
     let tabs: Vec<[Tab<T>; 2]> = ops.iter().map(|op| [mk(op, &wide), mk(op, &bnd)]).collect();
     let mut jobs = Vec::new();
-    for oi in 0..ops.len() { for ctx in 0..3usize { for p in 0..n { jobs.push((oi, ctx, p)); } } }
+    for oi in 0..ops.len() { for ctx in 0..4usize { if ctx == 3 && ops[oi].unary { continue; } for p in 0..n { jobs.push((oi, ctx, p)); } } }
     let total = Mutex::new((0u64, Tally::new()));
     jobs.par_iter().for_each(|&(oi, ctx, p)| {
         let op = &ops[oi];
-        let small = ctx == 2 || (op.panicky && ctx != 0);
+        let small = ctx >= 2 || (op.panicky && ctx != 0);
         let (al, tab) = if small { (&bnd, &tabs[oi][1]) } else { (&wide, &tabs[oi][0]) };
         let hz = |j: usize| ctx == 2 || (ctx == 1 && j == (p + 1) % n);
-        let (ea, eb): (Vec<T>, Vec<T>) = (0..n).map(|j| ctx_pair::<T>(op.fam, j, hz(j))).unzip();
+        let (ea, eb): (Vec<T>, Vec<T>) = (0..n).map(|j| if ctx == 3 { eq_pair::<T>(op.fam, j) } else { ctx_pair::<T>(op.fam, j, hz(j)) }).unzip();
         let oc: Vec<Cell<T>> = (0..n).map(|j| (op.scalar)(ea[j], eb[j])).collect();
         let others = |f: &dyn Fn(usize) -> bool| (0..n).any(|j| j != p && f(j));
         let (o_panic, o_nil, o_flag) = (others(&|j| oc[j].is_panic()), others(&|j| oc[j].is_nil()), others(&|j| oc[j].flag));
@@ -342,14 +367,21 @@ fn int_lifts<V: LiftVec<T>, T: IntElem>(s: &Section, full8: bool) {
         let site = format!("{}<{}>::{}", V::NAME, T::NAME, op.name);
         let mut cls = [0u64; 13]; // exact, inexact x3, None x3, flag x3, panic x3
         let (mut evals, mut nontriv, mut reported) = (0u64, 0u64, 0u32);
+        let mut eqs = [0u64; 2];
         for ia in 0..al.len() { for ib in 0..nb {
             let k = ia * nb + ib;
             let cell = tab.cells[k];
             let (w_panic, w_nil, w_flag) = (o_panic || cell.is_panic(), o_nil || cell.is_nil(), o_flag || cell.flag);
             let ci = if w_panic { 9 + who(cell.is_panic(), o_panic) } else if w_nil { 3 + who(cell.is_nil(), o_nil) } else if w_flag { 6 + who(cell.flag, o_flag) }
                      else if tab.inexact[k] || o_inexact { who(tab.inexact[k], o_inexact) } else { 0 };
+            // in context 3 the whole vectors are equal when the varied lane holds (a, a): the lifted form is then called a second time with the
+            // very same object as both operands (same per-lane expectation)
+            let whole_equal = ctx == 3 && ia == ib;
+            if whole_equal { eqs[0] += 1; }
+          for form in 0..(1 + whole_equal as usize) {
+            if form == 1 { eqs[1] += 1; }
             cls[ci] += 1; evals += 1; if ci != 0 { nontriv += 1; }
-            let got = catch(|| (op.vector)(&va[ia], &vb[ib]));
+            let got = if form == 0 { catch(|| (op.vector)(&va[ia], &vb[ib])) } else { catch(|| (op.vector)(&va[ia], &va[ia])) };
             let bad: Option<(&str, String)> = match got {
                 Err(Caught::Unmodelled(w)) => { s.unmodelled(w); None }
                 Err(Caught::Panic(m)) => if w_panic { None } else { Some(("unexpected-panic", m)) },
@@ -369,9 +401,10 @@ fn int_lifts<V: LiftVec<T>, T: IntElem>(s: &Section, full8: bool) {
                     let (mut a, mut b) = (ea.clone(), eb.clone()); a[p] = al[ia]; if !op.unary { b[p] = al[ib]; }
                     let want: Vec<String> = (0..n).map(|j| format!("{:?}", if j == p { cell } else { oc[j] })).collect();
                     s.violation_w(&site, class, json!({"lane": p, "context": CTX[ctx], "a": jd(&a), "b": if op.unary { json!(null) } else { jd(&b) }, "got": got,
-                        "want_per_lane": want, "want_flag": w_flag}), (((n * 4 + ctx) as u64) << 32) | ((p as u64) << 20) | ((ia as u64) << 10) | ib as u64);
+                        "want_per_lane": want, "want_flag": w_flag, "same_object_as_both_operands": form == 1}), (((n * 4 + ctx) as u64) << 32) | ((p as u64) << 20) | ((ia as u64) << 10) | ib as u64);
                 }
             }
+          }
             if ci != 0 && ctx == 1 && ia % 37 == 5 && s.wants_sample() {
                 s.sample(json!({"call": site, "varied_lane": p, "context": CTX[ctx], "a_lane": jd(&al[ia]), "b_lane": jd(&al[ib.min(al.len() - 1)]), "scalar_outcome_of_varied_lane": jd(&cell)}));
             }
@@ -384,6 +417,7 @@ fn int_lifts<V: LiftVec<T>, T: IntElem>(s: &Section, full8: bool) {
         // index map: 0 exact, 1..3 inexact, 4..6 None (3+who), 7..9 flag (6+who), 10..12 panic (9+who)
         for (i, c) in cls.iter().enumerate() { if *c > 0 { *g.1.entry(format!("{}: {}", op.family, names[i])).or_insert(0) += c; } }
         *g.1.entry(op.name.to_string()).or_insert(0) += evals;
+        for i in 0..2 { if eqs[i] > 0 { *g.1.entry(EQ_CLASSES[i].to_string()).or_insert(0) += eqs[i]; } }
     });
     let g = total.into_inner().unwrap();
     flush(s, &g.1);
@@ -407,14 +441,18 @@ struct Flat<'a, I, D> {
     predicate: bool,                                // whole outcome is a bool (Nil = false): only the verdict is compared
     interesting: &'a (dyn Fn(I) -> bool + Sync),    // non-trivial rule for plain outcomes
 }
-const FCTX: [&str; 3] = ["others benign", "one other position failing", "others rotate through the alphabet"];
+const FCTX: [&str; 4] = ["others benign", "one other position failing", "others rotate through the alphabet", "every other position holds a different unequal pair that still passes"];
 
-fn run_flat<I: Copy + Debug + Send + Sync, D: Copy + Debug + Same + Send + Sync>(s: &Section, tally: &mut Tally, f: Flat<I, D>) {
+fn run_flat<I: Copy + Debug + Send + Sync, D: Copy + Debug + Same + Send + Sync>(s: &Section, tally: &mut Tally, f: Flat<I, D>) { run_flat_x(s, tally, f, &[]) }
+/// `hold`: pool for a 4th context in which every other position holds an element of the pool (for predicates: unequal pairs on which the scalar
+/// predicate still holds, so that the whole outcome is decided by the varied position alone although every position deviates: separates a
+/// per-element conjunction from anything that accumulates deviations over the positions, e.g. a norm or a sum of differences)
+fn run_flat_x<I: Copy + Debug + Send + Sync, D: Copy + Debug + Same + Send + Sync>(s: &Section, tally: &mut Tally, f: Flat<I, D>, hold: &[I]) {
     let n = f.n;
     let acell: Vec<Cell<D>> = f.alpha.iter().map(|&a| (f.scalar)(a)).collect();
     let bcell = f.bad.map(|b| (f.scalar)(b));
     let mut jobs = Vec::new();
-    for p in 0..n { for ctx in 0..3usize { if ctx == 1 && (f.bad.is_none() || n < 2) { continue; } jobs.push((p, ctx)); } }
+    for p in 0..n { for ctx in 0..4usize { if ctx == 1 && (f.bad.is_none() || n < 2) { continue; } if ctx == 3 && (hold.is_empty() || n < 2) { continue; } jobs.push((p, ctx)); } }
     let out = Mutex::new((Tally::new(), 0u64));
     let body = |&(p, ctx): &(usize, usize)| {
         let mut elems: Vec<I> = Vec::with_capacity(n);
@@ -423,6 +461,7 @@ fn run_flat<I: Copy + Debug + Send + Sync, D: Copy + Debug + Same + Send + Sync>
             match ctx {
                 1 if j == (p + 1) % n => { elems.push(f.bad.unwrap()); cells.push(bcell.unwrap()); }
                 2 => { let k = (j * 7 + p + 3) % f.alpha.len(); elems.push(f.alpha[k]); cells.push(acell[k]); }
+                3 => { let e = hold[(j * 5 + p) % hold.len()]; elems.push(e); cells.push((f.scalar)(e)); }
                 _ => { let e = (f.safe)(j); elems.push(e); cells.push((f.scalar)(e)); }
             }
         }
@@ -439,6 +478,7 @@ fn run_flat<I: Copy + Debug + Send + Sync, D: Copy + Debug + Same + Send + Sync>
                 else if w_flag { format!("{}: flag: {}", f.tag, WHO[who(c.flag, o_flag)]) }
                 else { format!("{}: {}", f.tag, if f.predicate { "true" } else { "plain" }) };
             *local.entry(label).or_insert(0) += 1;
+            if ctx == 3 && !w_panic && !w_nil { *local.entry(format!("{}: holds although every position deviates", f.tag)).or_insert(0) += 1; }
             evals += 1;
             if w_panic || w_nil || w_flag || (f.interesting)(a) { nontriv += 1; }
             let got = catch(|| (f.vector)(&elems));
@@ -500,6 +540,22 @@ where V: VecN<T> + Copy + Send + Sync + Inv<Output = V> + Euclid {
         scalar: &|(a, b): (T, T)| val(Euclid::rem_euclid(&a, &b)),
         vector: &|e: &[(T, T)]| { let (a, b): (Vec<T>, Vec<T>) = e.iter().copied().unzip(); VOut::Val(Euclid::rem_euclid(&V::from_elems(a), &V::from_elems(b)).into_elems(), false) },
         predicate: false, interesting: &|(a, b)| nz(a) && nz(b) });
+    // equal operands in every position (a, a): once as two separately built equal vectors, once as the very same object on both sides
+    let diag: Vec<(T, T)> = cl.iter().map(|&a| (a, a)).collect();
+    for same in [false, true] {
+        let tag = if same { "float euclid (same object)" } else { "float euclid (equal operands)" };
+        for rem in [false, true] {
+            run_flat(s, t, Flat { site: format!("{}<{}>::{}", V::NAME, T::NAME, if rem { "rem_euclid" } else { "div_euclid" }), tag, n: V::N, alpha: &diag, safe: &|j| (T::small(j), T::small(j)), bad: None,
+                scalar: &|(a, b): (T, T)| val(if rem { Euclid::rem_euclid(&a, &b) } else { Euclid::div_euclid(&a, &b) }),
+                vector: &|e: &[(T, T)]| {
+                    let (a, b): (Vec<T>, Vec<T>) = e.iter().copied().unzip();
+                    let (x, y) = (V::from_elems(a), V::from_elems(b));
+                    let r = match (same, rem) { (true, false) => Euclid::div_euclid(&x, &x), (true, true) => Euclid::rem_euclid(&x, &x), (false, false) => Euclid::div_euclid(&x, &y), (false, true) => Euclid::rem_euclid(&x, &y) };
+                    VOut::Val(r.into_elems(), false)
+                },
+                predicate: false, interesting: &|(a, _)| nz(a) });
+        }
+    }
     *t.entry(V::NAME.to_string()).or_insert(0) += 1;
     *t.entry(T::NAME.to_string()).or_insert(0) += 1;
 }
@@ -546,8 +602,37 @@ where W: Zero + One + PartialEq + Clone {
             if g != want { s.violation_w(&site("One::is_one"), if g { "true-although-an-element-fails" } else { "false-although-every-element-holds" }, json!({"elements": jd(&e), "got": g, "want": want}), n as u64); }
         }
     } } }
+    // two non-zero elements that cancel: is_zero is false (a sum / dot product over the elements is not the test); two elements different
+    // from one whose product is one at places where one() holds T::one(): is_one is false
+    if n >= 2 {
+        for p in 0..n { for &(u, v) in &T::cancel() {
+            let mut e = vec![T::zero(); n]; e[p] = u; e[(p + 1) % n] = v;
+            s.eval(true);
+            *t.entry("is_zero: false: two non-zero elements cancel".into()).or_insert(0) += 1;
+            if let Some(g) = s.call(&site("Zero::is_zero"), || jd(&e), || build(&e).is_zero()) {
+                if g { s.violation_w(&site("Zero::is_zero"), "true-although-an-element-fails", json!({"elements": jd(&e), "got": g, "want": false}), n as u64); }
+            }
+        } }
+        let d: Vec<usize> = (0..n).filter(|&k| ones[k].same(&T::one())).collect();
+        for w in 0..d.len() { let (p, q) = (d[w], d[(w + 1) % d.len()]); if p == q { continue; } for &(u, v) in &T::unit_pairs() {
+            let mut e = ones.clone(); e[p] = u; e[q] = v;
+            s.eval(true);
+            *t.entry("is_one: false: two elements with product one".into()).or_insert(0) += 1;
+            if let Some(g) = s.call(&site("One::is_one"), || jd(&e), || build(&e).is_one()) {
+                if g { s.violation_w(&site("One::is_one"), "true-although-an-element-fails", json!({"elements": jd(&e), "got": g, "want": false}), n as u64); }
+            }
+        } }
+    }
     *t.entry(name.to_string()).or_insert(0) += 1;
     *t.entry(T::NAME.to_string()).or_insert(0) += 1;
+}
+/// the inherent constructors (`Vec::zero()`, `Vec::one()`, `Mat::zero()`, `Mat::identity()`) the trait forms delegate to, called directly
+fn inherent_ctor<T: Prim>(s: &Section, t: &mut Tally, name: &str, f: &str, got: Option<Vec<T>>, want: Vec<T>) {
+    s.eval(true);
+    *t.entry("inherent constructor: value".into()).or_insert(0) += 1;
+    if let Some(g) = got {
+        if g.len() != want.len() || !g.iter().zip(&want).all(|(a, b)| a.same(b)) { s.violation_w(&format!("{}<{}>::{}", name, T::NAME, f), "wrong-element-value", json!({"got": jd(&g), "want": jd(&want)}), want.len() as u64); }
+    }
 }
 fn zero_one_vec<V, T: Prim>(s: &Section, t: &mut Tally) where V: VecN<T> + Zero + One + PartialEq + Clone {
     zero_one::<V, T>(s, t, V::NAME, V::N, &|e| V::from_elems(e.to_vec()), &|w| w.into_elems(), &|_| T::one());
@@ -675,7 +760,7 @@ fn eq_and_ne<W, T: FloatElem>(s: &Section, site: &str, tag: &str, n: usize, ab: 
     let eq = whole_pred(x, y, p);
     let ne = whole_pred_ne(x, y, p);
     if ne == eq && reported.fetch_add(1, std::sync::atomic::Ordering::Relaxed) < 3 {
-        let f = match tag.trim_start_matches("near ") { "abs_diff_eq" => "abs_diff_ne", "relative_eq" => "relative_ne", _ => "ulps_ne" };
+        let f = match tag.trim_start_matches("near ").trim_start_matches("self ") { "abs_diff_eq" => "abs_diff_ne", "relative_eq" => "relative_ne", _ => "ulps_ne" };
         s.violation_w(&format!("{}::{}", site, f), "ne-is-not-the-negation-of-eq", json!({"a": jd(&ab.0), "b": jd(&ab.1), "predicate": format!("{:?}", p), "eq": eq, "ne": ne}), n as u64);
     }
     vtruth(n, eq)
@@ -717,12 +802,29 @@ where W: AbsDiffEq<Epsilon = T> + RelativeEq + UlpsEq {
     for e in [T::inf(), T::nan(), T::of(-1.0), T::maxv(), T::subn()] { xp.push(("near abs_diff_eq", Pred::Abs(e))); }
     for (e, m) in [(d, T::one()), (d, T::of(2.0)), (z, T::inf()), (z, T::nan()), (T::inf(), z), (T::of(-1.0), T::of(-1.0)), (z, T::of(1e-3)), (T::nan(), T::of(0.25)), (z, T::of(0.5))] { xp.push(("near relative_eq", Pred::Rel(e, m))); }
     for (e, u) in [(z, 1u32), (z, 4), (z, 5), (z, 16), (z, u32::MAX), (T::nan(), 4), (T::inf(), 0), (T::of(-1.0), 2), (T::subn(), 1)] { xp.push(("near ulps_eq", Pred::Ulps(e, u))); }
+    let dev = |&(a, b): &(T, T)| -> f64 { let d = (a.to_f64().unwrap_or(f64::NAN) - b.to_f64().unwrap_or(f64::NAN)).abs(); if d.is_finite() { d } else { -1.0 } };
     for &(tag, p) in &xp {
         reported.store(0, std::sync::atomic::Ordering::Relaxed);
-        run_flat(s, t, Flat { site: format!("{}::{}", site, tag.trim_start_matches("near ")), tag, n, alpha: &near, safe: &|j| (T::small(j), T::small(j)), bad: Some((T::of(3.5), T::of(-7.5))),
+        // 4th context: every other position holds a different unequal pair on which the scalar predicate still holds, largest deviations first
+        let mut pool: Vec<(T, T)> = near.iter().copied().filter(|&(a, b)| a.to_bits_u64() != b.to_bits_u64() && matches!(pred_cell(a, b, p).out, Lane::Val(_))).collect();
+        pool.sort_by(|x, y| dev(y).partial_cmp(&dev(x)).unwrap());
+        run_flat_x(s, t, Flat { site: format!("{}::{}", site, tag.trim_start_matches("near ")), tag, n, alpha: &near, safe: &|j| (T::small(j), T::small(j)), bad: Some((T::of(3.5), T::of(-7.5))),
             scalar: &|(a, b): (T, T)| pred_cell(a, b, p),
             vector: &|e: &[(T, T)]| { let (a, b): (Vec<T>, Vec<T>) = e.iter().copied().unzip(); eq_and_ne(s, &site, tag, n, (&a, &b), &build(&a), &build(&b), p, &reported) },
-            predicate: true, interesting: &|(a, b)| a.to_bits_u64() != b.to_bits_u64() });
+            predicate: true, interesting: &|(a, b)| a.to_bits_u64() != b.to_bits_u64() }, &pool);
+    }
+    // the very same object on both sides (x.abs_diff_eq(&x, ..)): per element the scalar predicate of (a, a), which fails for NaN, for infinities
+    // under abs_diff_eq, and under negative / NaN tolerances
+    let mut selfs: Vec<T> = cl.clone();
+    for &(a, _) in &near { if !selfs.iter().any(|o| o.to_bits_u64() == a.to_bits_u64()) { selfs.push(a); } }
+    for &(tag, p) in &xp {
+        reported.store(0, std::sync::atomic::Ordering::Relaxed);
+        let tag = match tag { "near abs_diff_eq" => "self abs_diff_eq", "near relative_eq" => "self relative_eq", _ => "self ulps_eq" };
+        let failing = selfs.iter().copied().find(|&a| !matches!(pred_cell(a, a, p).out, Lane::Val(_)));
+        run_flat(s, t, Flat { site: format!("{}::{}", site, tag.trim_start_matches("self ")), tag, n, alpha: &selfs, safe: &|j| T::small(j), bad: failing,
+            scalar: &|a: T| pred_cell(a, a, p),
+            vector: &|e: &[T]| { let x = build(e); eq_and_ne(s, &site, tag, n, (e, e), &x, &x, p, &reported) },
+            predicate: true, interesting: &|_| true });
     }
     *t.entry(name.to_string()).or_insert(0) += 1;
     *t.entry(T::NAME.to_string()).or_insert(0) += 1;
@@ -738,9 +840,12 @@ fn approx_int<W, T: IntElem + AbsDiffEq<Epsilon = T>>(s: &Section, t: &mut Tally
     let (lo, hi) = (T::min_v(), T::max_v());
     let al = in_range::<T>(vec![lo, lo + 1, lo / 2, -8, -1, 0, 1, 7, 8, hi / 2, hi / 2 + 8, hi - 1, hi]);
     let pairs: Vec<(T, T)> = al.iter().flat_map(|&a| al.iter().map(move |&b| (a, b))).collect();
-    for e in [T::zero(), T::of(7), T::of(T::max_v())] {
+    // a negative epsilon (signed types): every scalar predicate is false, also on (a, a)
+    let mut epsilons = vec![T::zero(), T::of(7), T::of(T::max_v())];
+    if T::SIGNED { epsilons.push(T::of(-1)); }
+    for e in epsilons {
         let reported = std::sync::atomic::AtomicU32::new(0);
-        run_flat(s, t, Flat { site: format!("{}::abs_diff_eq", site), tag: "int abs_diff_eq", n, alpha: &pairs, safe: &|j| (T::small(j), T::small(j)), bad: Some((T::zero(), T::of(100))),
+        run_flat_x(s, t, Flat { site: format!("{}::abs_diff_eq", site), tag: "int abs_diff_eq", n, alpha: &pairs, safe: &|j| (T::small(j), T::small(j)), bad: Some((T::zero(), T::of(100))),
             scalar: &|(a, b): (T, T)| match catch(|| T::abs_diff_eq(&a, &b, e)) { Ok(v) => holds(v), Err(_) => Cell { out: Lane::Panic, flag: false } },
             vector: &|el: &[(T, T)]| {
                 let (a, b): (Vec<T>, Vec<T>) = el.iter().copied().unzip();
@@ -749,10 +854,79 @@ fn approx_int<W, T: IntElem + AbsDiffEq<Epsilon = T>>(s: &Section, t: &mut Tally
                 if x.abs_diff_ne(&y, e) == eq && reported.fetch_add(1, std::sync::atomic::Ordering::Relaxed) < 3 { s.violation_w(&format!("{}::abs_diff_ne", site), "ne-is-not-the-negation-of-eq", json!({"a": jd(&a), "b": jd(&b), "epsilon": jd(&e)}), n as u64); }
                 vtruth(n, eq)
             },
-            predicate: true, interesting: &|(a, b)| a != b });
+            predicate: true, interesting: &|(a, b)| a != b }, &{
+                let mut pool: Vec<(T, T)> = pairs.iter().copied().filter(|&(a, b)| a != b && matches!(catch(|| T::abs_diff_eq(&a, &b, e)), Ok(true))).collect();
+                pool.sort_by_key(|&(a, b)| -(a.wide() - b.wide()).abs());
+                pool });
+        // the very same object on both sides
+        run_flat(s, t, Flat { site: format!("{}::abs_diff_eq", site), tag: "int self abs_diff_eq", n, alpha: &al, safe: &|j| T::small(j), bad: None,
+            scalar: &|a: T| match catch(|| T::abs_diff_eq(&a, &a, e)) { Ok(v) => holds(v), Err(_) => Cell { out: Lane::Panic, flag: false } },
+            vector: &|el: &[T]| { let x = build(el); let eq = x.abs_diff_eq(&x, e); if x.abs_diff_ne(&x, e) == eq && reported.fetch_add(1, std::sync::atomic::Ordering::Relaxed) < 3 { s.violation_w(&format!("{}::abs_diff_ne", site), "ne-is-not-the-negation-of-eq", json!({"a": jd(&el), "b": "the same object", "epsilon": jd(&e)}), n as u64); } vtruth(n, eq) },
+            predicate: true, interesting: &|_| true });
     }
     *t.entry(name.to_string()).or_insert(0) += 1;
     *t.entry(T::NAME.to_string()).or_insert(0) += 1;
+}
+// ---- opaque probe element: the approx lifts can only call the element's own predicates; the probe's predicates hold exactly when they are
+// called on (element k of self, element k of other) in this order, with exactly the tolerances handed to the lifted form; `==` on probes is
+// always true (equality says nothing about the approximate predicates); the three defaults are pairwise different
+#[derive(Clone, Copy, Debug)]
+struct Probe { id: u16, ok: bool }
+impl PartialEq for Probe { fn eq(&self, _o: &Probe) -> bool { true } }
+const P_EPS: f64 = 0.3; const P_REL: f64 = 0.7; const P_ULPS: u32 = 11;
+const P_DEFAULTS: (f64, f64, u32) = (0.125, 0.5, 7);
+impl Probe { fn pair(&self, o: &Probe) -> bool { self.ok && o.ok && self.id + 1000 == o.id } }
+impl AbsDiffEq for Probe { type Epsilon = f64; fn default_epsilon() -> f64 { P_DEFAULTS.0 } fn abs_diff_eq(&self, o: &Probe, e: f64) -> bool { self.pair(o) && e == P_EPS } }
+impl RelativeEq for Probe { fn default_max_relative() -> f64 { P_DEFAULTS.1 } fn relative_eq(&self, o: &Probe, e: f64, m: f64) -> bool { self.pair(o) && e == P_EPS && m == P_REL } }
+impl UlpsEq for Probe { fn default_max_ulps() -> u32 { P_DEFAULTS.2 } fn ulps_eq(&self, o: &Probe, e: f64, u: u32) -> bool { self.pair(o) && e == P_EPS && u == P_ULPS } }
+fn probe_lift<W>(s: &Section, t: &mut Tally, name: &str, n: usize, build: &dyn Fn(&[Probe]) -> W) where W: AbsDiffEq<Epsilon = f64> + RelativeEq + UlpsEq {
+    let site = format!("{}<probe>", name);
+    s.eval(true);
+    *t.entry("probe: defaults".into()).or_insert(0) += 1;
+    if let Some(d) = s.call(&site, || json!("defaults"), || (W::default_epsilon(), W::default_max_relative(), W::default_max_ulps())) {
+        if d != P_DEFAULTS { s.violation(&format!("{}::default_epsilon/max_relative/max_ulps", site), "differs-from-element-type", json!({"got": jd(&d), "want": jd(&P_DEFAULTS)})); }
+    }
+    let left = |bad: Option<usize>| -> Vec<Probe> { (0..n).map(|k| Probe { id: k as u16, ok: bad != Some(k) }).collect() };
+    let right = |bad: Option<usize>, shift: usize| -> Vec<Probe> { (0..n).map(|k| Probe { id: 1000 + ((k + shift) % n) as u16, ok: bad != Some(k) }).collect() };
+    let mut cases: Vec<(String, Vec<Probe>, Vec<Probe>, bool)> = vec![("every pair of corresponding elements holds".into(), left(None), right(None, 0), true)];
+    for k in 0..n {
+        cases.push((format!("left element {} fails", k), left(Some(k)), right(None, 0), false));
+        cases.push((format!("right element {} fails", k), left(None), right(Some(k), 0), false));
+    }
+    if n >= 2 { cases.push(("right operand rotated by one position".into(), left(None), right(None, 1), false)); }
+    cases.push(("operands exchanged".into(), right(None, 0), left(None), false));
+    let preds: [(&str, Pred<f64>, bool); 10] = [
+        ("abs_diff_eq", Pred::Abs(P_EPS), true), ("abs_diff_eq", Pred::Abs(P_REL), false), ("abs_diff_eq", Pred::Abs(P_DEFAULTS.0), false),
+        ("relative_eq", Pred::Rel(P_EPS, P_REL), true), ("relative_eq", Pred::Rel(P_REL, P_EPS), false), ("relative_eq", Pred::Rel(P_EPS, P_EPS), false), ("relative_eq", Pred::Rel(P_EPS, P_DEFAULTS.1), false),
+        ("ulps_eq", Pred::Ulps(P_EPS, P_ULPS), true), ("ulps_eq", Pred::Ulps(P_REL, P_ULPS), false), ("ulps_eq", Pred::Ulps(P_EPS, P_DEFAULTS.2), false)];
+    for (what, a, b, elems_ok) in &cases { for &(f, p, args_ok) in &preds {
+        let want = *elems_ok && args_ok;
+        s.eval(true);
+        *t.entry((if want { "probe: holds" } else if *elems_ok { "probe: false: tolerances are not the ones the element accepts" } else { "probe: false: an element pair fails" }).into()).or_insert(0) += 1;
+        let (x, y) = (build(a), build(b));
+        if let Some((eq, ne)) = s.call(&format!("{}::{}", site, f), || json!({"case": what, "predicate": format!("{:?}", p)}), || (whole_pred(&x, &y, p), whole_pred_ne(&x, &y, p))) {
+            if eq != want { s.violation_w(&format!("{}::{}", site, f), if eq { "true-although-an-element-fails" } else { "false-although-every-element-holds" }, json!({"case": what, "predicate": format!("{:?}", p), "accepted": format!("epsilon {} max_relative {} max_ulps {}", P_EPS, P_REL, P_ULPS), "got": eq, "want": want}), n as u64); }
+            if ne == eq { s.violation_w(&format!("{}::{}", site, f.replace("_eq", "_ne")), "ne-is-not-the-negation-of-eq", json!({"case": what, "predicate": format!("{:?}", p), "eq": eq, "ne": ne}), n as u64); }
+        }
+    } }
+    *t.entry(name.to_string()).or_insert(0) += 1;
+}
+/// the wrapping lifts on `Wrapping<_>` elements (num_traits implements Wrapping{Add,Sub,Mul,Neg} for them)
+fn wrapping_elems<V, E>(s: &Section, t: &mut Tally, ename: &str, all: &[E], bnd: &[E])
+where V: VecN<E> + WrappingAdd + WrappingSub + WrappingMul + WrappingNeg, E: Copy + Debug + Same + Send + Sync + WrappingAdd + WrappingSub + WrappingMul + WrappingNeg {
+    let pairs: Vec<(E, E)> = all.iter().flat_map(|&a| bnd.iter().map(move |&b| (a, b))).chain(bnd.iter().flat_map(|&a| all.iter().map(move |&b| (a, b)))).collect();
+    let safe = |j: usize| (all[(j * 37 + 5) % all.len()], all[(j * 11 + 3) % all.len()]);
+    let ops: [(&str, fn(&E, &E) -> E, fn(&V, &V) -> V); 4] = [
+        ("wrapping_add", |a, b| WrappingAdd::wrapping_add(a, b), |x, y| WrappingAdd::wrapping_add(x, y)), ("wrapping_sub", |a, b| WrappingSub::wrapping_sub(a, b), |x, y| WrappingSub::wrapping_sub(x, y)),
+        ("wrapping_mul", |a, b| WrappingMul::wrapping_mul(a, b), |x, y| WrappingMul::wrapping_mul(x, y)), ("wrapping_neg", |a, _b| WrappingNeg::wrapping_neg(a), |x, _y| WrappingNeg::wrapping_neg(x))];
+    for (name, sc, ve) in ops {
+        run_flat(s, t, Flat { site: format!("{}<{}>::{}", V::NAME, ename, name), tag: name, n: V::N, alpha: &pairs, safe: &safe, bad: None,
+            scalar: &|(a, b): (E, E)| val(sc(&a, &b)),
+            vector: &|e: &[(E, E)]| { let (a, b): (Vec<E>, Vec<E>) = e.iter().copied().unzip(); VOut::Val(ve(&V::from_elems(a), &V::from_elems(b)).into_elems(), false) },
+            predicate: false, interesting: &|_| true });
+    }
+    *t.entry(V::NAME.to_string()).or_insert(0) += 1;
+    *t.entry(ename.to_string()).or_insert(0) += 1;
 }
 trait Bits { fn to_bits_u64(self) -> u64; }
 impl Bits for f32 { fn to_bits_u64(self) -> u64 { self.to_bits() as u64 } }
@@ -846,6 +1020,10 @@ macro_rules! az_vecs3 { ($s:expr, $t:expr, $S:ty => $D:ty; $($V:ident),+) => { $
     az_flat::<$S, $D>($s, $t, ty, n, "az", &|a: $S| pan(|| az::cast::<$S, $D>(a)), &|e: &[$S]| VOut::Val(b(e).az::<$D>().into_elems(), false));
     az_flat::<$S, $D>($s, $t, ty, n, "checked_as", &|a: $S| opt(az::checked_cast::<$S, $D>(a)), &|e: &[$S]| match b(e).checked_as::<$D>() { Some(v) => VOut::Val(v.into_elems(), false), None => VOut::Nil });
     az_flat::<$S, $D>($s, $t, ty, n, "unwrapped_as", &|a: $S| pan(|| az::unwrapped_cast::<$S, $D>(a)), &|e: &[$S]| VOut::Val(b(e).unwrapped_as::<$D>().into_elems(), false));
+    // the trait forms the inherent methods delegate to, called directly
+    az_flat::<$S, $D>($s, $t, ty, n, "Cast::cast", &|a: $S| pan(|| az::cast::<$S, $D>(a)), &|e: &[$S]| VOut::Val(<$V<$S> as az::Cast<$V<$D>>>::cast(b(e)).into_elems(), false));
+    az_flat::<$S, $D>($s, $t, ty, n, "CheckedCast::checked_cast", &|a: $S| opt(az::checked_cast::<$S, $D>(a)), &|e: &[$S]| match <$V<$S> as az::CheckedCast<$V<$D>>>::checked_cast(b(e)) { Some(v) => VOut::Val(v.into_elems(), false), None => VOut::Nil });
+    az_flat::<$S, $D>($s, $t, ty, n, "UnwrappedCast::unwrapped_cast", &|a: $S| pan(|| az::unwrapped_cast::<$S, $D>(a)), &|e: &[$S]| VOut::Val(<$V<$S> as az::UnwrappedCast<$V<$D>>>::unwrapped_cast(b(e)).into_elems(), false));
 } )+ } }
 #[cfg(feature = "az")]
 macro_rules! az_vecs { ($s:expr, $t:expr, $S:ty => $D:ty; $($V:ident),+) => { az_vecs3!($s, $t, $S => $D; $($V),+); $( {
@@ -855,6 +1033,10 @@ macro_rules! az_vecs { ($s:expr, $t:expr, $S:ty => $D:ty; $($V:ident),+) => { az
     az_flat::<$S, $D>($s, $t, ty, n, "wrapping_as", &|a: $S| pan(|| az::wrapping_cast::<$S, $D>(a)), &|e: &[$S]| VOut::Val(b(e).wrapping_as::<$D>().into_elems(), false));
     az_flat::<$S, $D>($s, $t, ty, n, "overflowing_as", &|a: $S| match catch(|| az::overflowing_cast::<$S, $D>(a)) { Ok(r) => flg(r), Err(_) => Cell { out: Lane::Panic, flag: false } },
         &|e: &[$S]| { let (v, f) = b(e).overflowing_as::<$D>(); VOut::Val(v.into_elems(), f) });
+    az_flat::<$S, $D>($s, $t, ty, n, "SaturatingCast::saturating_cast", &|a: $S| pan(|| az::saturating_cast::<$S, $D>(a)), &|e: &[$S]| VOut::Val(<$V<$S> as az::SaturatingCast<$V<$D>>>::saturating_cast(b(e)).into_elems(), false));
+    az_flat::<$S, $D>($s, $t, ty, n, "WrappingCast::wrapping_cast", &|a: $S| pan(|| az::wrapping_cast::<$S, $D>(a)), &|e: &[$S]| VOut::Val(<$V<$S> as az::WrappingCast<$V<$D>>>::wrapping_cast(b(e)).into_elems(), false));
+    az_flat::<$S, $D>($s, $t, ty, n, "OverflowingCast::overflowing_cast", &|a: $S| match catch(|| az::overflowing_cast::<$S, $D>(a)) { Ok(r) => flg(r), Err(_) => Cell { out: Lane::Panic, flag: false } },
+        &|e: &[$S]| { let (v, f) = <$V<$S> as az::OverflowingCast<$V<$D>>>::overflowing_cast(b(e)); VOut::Val(v.into_elems(), f) });
 } )+ } }
 
 // ---- explorer F: cargo feature configurations (results produced by checks/c20_driver.py) ----
@@ -904,9 +1086,9 @@ fn main() {
     let rep = Report::start("C20", "exploration");
     let thorough = rep.thorough();
     rep.section("integer lifts on i8/u8: all operand pairs per lane",
-        "for each of the 13 vector types, element type i8 and u8, each of 20 lifted operations (Checked{Add,Sub,Mul,Div,Rem,Neg}, CheckedEuclid x2, Wrapping{Add,Sub,Mul,Neg}, Saturating{Add,Sub,Mul}, Overflowing{Add,Sub,Mul}, Euclid x2), each lane position p and 3 contexts for the other lanes (benign lane-dependent operands; exactly one other lane overflowing / dividing by zero; all other lanes so): every operand pair of the lane alphabet in lane p (all 65 536 pairs when N<=4 or thorough; the boundary alphabet squared for N>=8 in quick, for the all-hazardous context, and for the panicking Euclid forms in hazardous contexts). Oracle: the scalar num_traits operation per lane; Some(v) iff every lane is Some; flag = OR of lane flags; panic iff some lane's scalar form panics. non-trivial: some lane is None / flagged / panicking / wrapped or saturated",
+        "for each of the 13 vector types, element type i8 and u8, each of 20 lifted operations (Checked{Add,Sub,Mul,Div,Rem,Neg}, CheckedEuclid x2, Wrapping{Add,Sub,Mul,Neg}, Saturating{Add,Sub,Mul}, Overflowing{Add,Sub,Mul}, Euclid x2), each lane position p and 3 contexts for the other lanes (benign lane-dependent operands; exactly one other lane overflowing / dividing by zero; all other lanes so): every operand pair of the lane alphabet in lane p (all 65 536 pairs when N<=4 or thorough; the boundary alphabet squared for N>=8 in quick, for the all-hazardous context, and for the panicking Euclid forms in hazardous contexts). 4th context (binary operations): every other lane holds equal benign operands (v_j, v_j) and the varied lane runs through the boundary alphabet squared, so that the whole vectors are equal on the diagonal (0/0, MIN/MIN, ...); there the lifted form is also called with the very same object as both operands. Oracle: the scalar num_traits operation per lane; Some(v) iff every lane is Some; flag = OR of lane flags; panic iff some lane's scalar form panics. non-trivial: some lane is None / flagged / panicking / wrapped or saturated",
         true, false, |s| {
-            s.require_classes(&LIFT_CLASSES); s.require_classes(&ALL_TYPES); s.require_classes(&INT_OPS); s.require_classes(&["i8", "u8"]);
+            s.require_classes(&LIFT_CLASSES); s.require_classes(&ALL_TYPES); s.require_classes(&INT_OPS); s.require_classes(&["i8", "u8"]); s.require_classes(&EQ_CLASSES);
             for_all_vecs!(V => {
                 let full = thorough || <V<i8> as VecN<i8>>::N <= 4;
                 int_lifts::<V<i8>, i8>(s, full);
@@ -916,9 +1098,12 @@ fn main() {
             s.meta("contexts", json!(CTX));
         });
     rep.section("integer lifts on wider element types (boundary alphabets)",
-        "the same 20 operations, 13 vector types, every lane position and the 3 contexts on i16,u16,i32,u32,i64,u64: the varied lane runs through the square of the type's boundary alphabet (range ends, halves, square roots of MAX, small values: the points where add/sub/mul/div/neg change regime; thorough: plus +-2^k and +-(2^k-1), every k for 16 bit and every 2nd for 32/64 bit). The property text says 'sampled for wider types'; this is a complete enumeration of a stated boundary alphabet, not a random sample. non-trivial as above",
+        "the same 20 operations, 13 vector types, every lane position and the 3 contexts on i16,u16,i32,u32,i64,u64: the varied lane runs through the square of the type's boundary alphabet (range ends, halves, square roots of MAX, small values: the points where add/sub/mul/div/neg change regime; thorough: plus +-2^k and +-(2^k-1), every k for 16 bit and every 2nd for 32/64 bit). The property text says 'sampled for wider types'; this is a complete enumeration of a stated boundary alphabet, not a random sample. Also the pointer-sized isize / usize on Vec3, Vec8, Rgba, and the 4th context (equal operands in every lane, same object as both operands) as in the 8-bit section. non-trivial as above",
         true, false, |s| {
-            s.require_classes(&LIFT_CLASSES); s.require_classes(&ALL_TYPES); s.require_classes(&INT_OPS); s.require_classes(&["i16", "u16", "i32", "u32", "i64", "u64"]);
+            s.require_classes(&LIFT_CLASSES); s.require_classes(&ALL_TYPES); s.require_classes(&INT_OPS); s.require_classes(&["i16", "u16", "i32", "u32", "i64", "u64", "isize", "usize"]); s.require_classes(&EQ_CLASSES);
+            int_lifts::<Vec3<isize>, isize>(s, thorough); int_lifts::<Vec3<usize>, usize>(s, thorough);
+            int_lifts::<Vec8<isize>, isize>(s, thorough); int_lifts::<Vec8<usize>, usize>(s, thorough);
+            int_lifts::<Rgba<isize>, isize>(s, thorough); int_lifts::<Rgba<usize>, usize>(s, thorough);
             for_all_vecs!(V => {
                 int_lifts::<V<i16>, i16>(s, thorough); int_lifts::<V<u16>, u16>(s, thorough);
                 int_lifts::<V<i32>, i32>(s, thorough); int_lifts::<V<u32>, u32>(s, thorough);
@@ -930,9 +1115,9 @@ fn main() {
         });
 
     rep.section("float lifts: Inv and Euclid",
-        "Inv::inv, Euclid::{div_euclid, rem_euclid} on the 13 vector types over f32 and f64: every position runs through the float class alphabet (17 values: +-0, +-min subnormal, min normal, 0.1, +-1, 1+ulp, 1.0005, 3.5, -7.5, +-MAX, +-inf, NaN; squared for the binary forms) with the other positions benign or rotating through the alphabet; result compared bit for bit (NaN = NaN) with the scalar operation; thorough: the 38-value extended class alphabet (adds ULP neighbours of 1, 1.25, +-2.5, 7, -0.3, 1e-3, values scaled by 2^+-40 (f32) / 2^+-400 (f64), MAX/2, pred(MAX), the largest subnormal). non-trivial: operands non-zero",
+        "Inv::inv, Euclid::{div_euclid, rem_euclid} on the 13 vector types over f32 and f64: every position runs through the float class alphabet (17 values: +-0, +-min subnormal, min normal, 0.1, +-1, 1+ulp, 1.0005, 3.5, -7.5, +-MAX, +-inf, NaN; squared for the binary forms) with the other positions benign or rotating through the alphabet; result compared bit for bit (NaN = NaN) with the scalar operation; thorough: the 38-value extended class alphabet (adds ULP neighbours of 1, 1.25, +-2.5, 7, -0.3, 1e-3, values scaled by 2^+-40 (f32) / 2^+-400 (f64), MAX/2, pred(MAX), the largest subnormal). Euclid also on equal operands in every position (a, a) for every class a: as two separately built equal vectors and as the very same object on both sides. non-trivial: operands non-zero",
         true, false, |s| {
-            s.require_classes(&ALL_TYPES); s.require_classes(&["f32", "f64", "inv: plain", "float div_euclid: plain", "float rem_euclid: plain"]);
+            s.require_classes(&ALL_TYPES); s.require_classes(&["f32", "f64", "inv: plain", "float div_euclid: plain", "float rem_euclid: plain", "float euclid (equal operands): plain", "float euclid (same object): plain"]);
             let mut t = Tally::new();
             for_all_vecs!(V => { float_lifts::<V<f32>, f32>(s, &mut t); float_lifts::<V<f64>, f64>(s, &mut t); });
             flush(s, &t);
@@ -940,15 +1125,27 @@ fn main() {
         });
 
     rep.section("Zero / One / is_zero / is_one on vectors and matrices",
-        "13 vector types and 6 matrix types (both layouts) over i8,u8,u16,i32,i64,f32,f64: Zero::zero() and set_zero() hold T::zero() everywhere; One::one()/set_one() hold T::one() everywhere on vectors and the identity on matrices; is_zero (each position through the type's class alphabet, others zero / one other non-zero / rotating) holds exactly when every element is_zero by the scalar rule (so -0.0 counts, NaN does not); is_one likewise against one(). non-trivial: all",
+        "13 vector types and 6 matrix types (both layouts) over i8,u8,u16,i32,i64,f32,f64: Zero::zero() and set_zero() hold T::zero() everywhere; One::one()/set_one() hold T::one() everywhere on vectors and the identity on matrices; is_zero (each position through the type's class alphabet, others zero / one other non-zero / rotating) holds exactly when every element is_zero by the scalar rule (so -0.0 counts, NaN does not); is_one likewise against one(). Also: two non-zero elements that cancel ((1,-1), (MAX,-MAX), (MIN,MIN), (min subnormal, -min subnormal), (inf,-inf); for unsigned integers pairs whose wrapping sum is 0) at every pair of neighbouring positions: is_zero is false; two elements with (wrapping) product one ((-1,-1), (2,0.5), (MAX,MAX) unsigned) at positions where one() holds one: is_one is false; the inherent constructors zero() / one() / identity() the trait forms delegate to, called directly. non-trivial: all",
         true, false, |s| {
             s.require_classes(&ALL_TYPES);
             s.require_classes(&["row Mat2", "row Mat3", "row Mat4", "col Mat2", "col Mat3", "col Mat4", "i8", "u8", "i32", "f32", "f64", "u16", "i64",
                 "is_zero: true", "is_zero: false: varied lane only", "is_zero: false: other lanes only", "is_zero: false: both", "is_one: true", "is_one: false",
-                "Zero::zero: value", "Zero::set_zero: value", "One::one: value", "One::set_one: value"]);
+                "Zero::zero: value", "Zero::set_zero: value", "One::one: value", "One::set_one: value",
+                "is_zero: false: two non-zero elements cancel", "is_one: false: two elements with product one", "inherent constructor: value"]);
             let mut t = Tally::new();
+            macro_rules! zi { ($T:ty, $lay:ident $M:ident $N:expr, $name:expr) => {{
+                let idn: Vec<$T> = (0..$N * $N).map(|k| if k / $N == k % $N { <$T as One>::one() } else { <$T as Zero>::zero() }).collect();
+                inherent_ctor::<$T>(s, &mut t, $name, "zero (inherent)", s.call($name, || json!("zero()"), || flat(&<$lay::$M<$T> as MatIO<$T, $N>>::decode(&$lay::$M::<$T>::zero()))), vec![<$T as Zero>::zero(); $N * $N]);
+                inherent_ctor::<$T>(s, &mut t, $name, "identity (inherent)", s.call($name, || json!("identity()"), || flat(&<$lay::$M<$T> as MatIO<$T, $N>>::decode(&$lay::$M::<$T>::identity()))), idn);
+            }} }
             macro_rules! zo { ($($T:ty),*) => { $(
-                for_all_vecs!(V => { zero_one_vec::<V<$T>, $T>(s, &mut t); });
+                for_all_vecs!(V => {
+                    zero_one_vec::<V<$T>, $T>(s, &mut t);
+                    let (nm, n) = (<V<$T> as VecN<$T>>::NAME, <V<$T> as VecN<$T>>::N);
+                    inherent_ctor::<$T>(s, &mut t, nm, "zero (inherent)", s.call(nm, || json!("zero()"), || V::<$T>::zero().into_elems()), vec![<$T as Zero>::zero(); n]);
+                    inherent_ctor::<$T>(s, &mut t, nm, "one (inherent)", s.call(nm, || json!("one()"), || V::<$T>::one().into_elems()), vec![<$T as One>::one(); n]);
+                });
+                zi!($T, rm Mat2 2, "row Mat2"); zi!($T, cm Mat2 2, "col Mat2"); zi!($T, rm Mat3 3, "row Mat3"); zi!($T, cm Mat3 3, "col Mat3"); zi!($T, rm Mat4 4, "row Mat4"); zi!($T, cm Mat4 4, "col Mat4");
                 zero_one_mat::<rm::Mat2<$T>, $T, 2>(s, &mut t, "row Mat2"); zero_one_mat::<cm::Mat2<$T>, $T, 2>(s, &mut t, "col Mat2");
                 zero_one_mat::<rm::Mat3<$T>, $T, 3>(s, &mut t, "row Mat3"); zero_one_mat::<cm::Mat3<$T>, $T, 3>(s, &mut t, "col Mat3");
                 zero_one_mat::<rm::Mat4<$T>, $T, 4>(s, &mut t, "row Mat4"); zero_one_mat::<cm::Mat4<$T>, $T, 4>(s, &mut t, "col Mat4");
@@ -1035,12 +1232,15 @@ fn main() {
             flush(s, &t);
         });
     rep.section("approx lifts: abs_diff_eq / relative_eq / ulps_eq on vectors, matrices, quaternions",
-        "AbsDiffEq, RelativeEq, UlpsEq on 13 vector types, 6 matrix types (both layouts) and Quaternion over f32 and f64: each element position runs through all 17^2 pairs of the float class alphabet, for epsilon in {default, 0, 1e-3} x {abs; relative with max_relative default and 0.25; ulps with max_ulps default and 0} (thorough: + max_relative 0, max_ulps 2^22, doubled epsilon), in 3 contexts (other positions equal; one other position unequal (1 vs 2); others rotating through the pair alphabet). Oracle: conjunction of the scalar approx predicate over corresponding elements; the default epsilon / max_relative / max_ulps equal the element type's. Added: (a) thorough squares the 38-value extended class alphabet (ULP neighbours of 1, values scaled by 2^+-40 / 2^+-400, MAX/2, pred(MAX), largest subnormal) instead of the 17 classes; (b) 'near' runs: each position through a targeted list of pairs k ULPs apart (k = 1,2,4,5,6,16 at nine magnitudes), pairs straddling max_relative 0.25 / 1e-3 and epsilon 1e-3 at scales 1, 2^+-40 (f32) / 2^+-400 (f64), sign-crossing and non-finite pairs, both orders, under all predicates above plus extreme tolerances (epsilon inf / NaN / -1 / MAX / min subnormal; max_relative 1, 2, 0.5, 1e-3, inf, NaN, -1; max_ulps 1, 4, 5, 16, u32::MAX); (c) with every eq form the negated form abs_diff_ne / relative_ne / ulps_ne is called on the same operands and must be its negation; (d) AbsDiffEq (the one approx trait integers implement) on i8, u8, i32 vectors / matrices / quaternions over the square of {MIN, MIN+1, MIN/2, -8, -1, 0, 1, 7, 8, MAX/2, MAX/2+8, MAX-1, MAX} with epsilon 0, 7, MAX, where the scalar form may panic on overflow (then the lifted form must panic too). non-trivial: the varied pair is not bit-identical",
+        "AbsDiffEq, RelativeEq, UlpsEq on 13 vector types, 6 matrix types (both layouts) and Quaternion over f32 and f64: each element position runs through all 17^2 pairs of the float class alphabet, for epsilon in {default, 0, 1e-3} x {abs; relative with max_relative default and 0.25; ulps with max_ulps default and 0} (thorough: + max_relative 0, max_ulps 2^22, doubled epsilon), in 3 contexts (other positions equal; one other position unequal (1 vs 2); others rotating through the pair alphabet). Oracle: conjunction of the scalar approx predicate over corresponding elements; the default epsilon / max_relative / max_ulps equal the element type's. Added: (a) thorough squares the 38-value extended class alphabet (ULP neighbours of 1, values scaled by 2^+-40 / 2^+-400, MAX/2, pred(MAX), largest subnormal) instead of the 17 classes; (b) 'near' runs: each position through a targeted list of pairs k ULPs apart (k = 1,2,4,5,6,16 at nine magnitudes), pairs straddling max_relative 0.25 / 1e-3 and epsilon 1e-3 at scales 1, 2^+-40 (f32) / 2^+-400 (f64), sign-crossing and non-finite pairs, both orders, under all predicates above plus extreme tolerances (epsilon inf / NaN / -1 / MAX / min subnormal; max_relative 1, 2, 0.5, 1e-3, inf, NaN, -1; max_ulps 1, 4, 5, 16, u32::MAX); (c) with every eq form the negated form abs_diff_ne / relative_ne / ulps_ne is called on the same operands and must be its negation; (d) AbsDiffEq (the one approx trait integers implement) on i8, u8, i32 vectors / matrices / quaternions over the square of {MIN, MIN+1, MIN/2, -8, -1, 0, 1, 7, 8, MAX/2, MAX/2+8, MAX-1, MAX} with epsilon 0, 7, MAX (signed: and -1), where the scalar form may panic on overflow (then the lifted form must panic too); (e) in the near runs and the integer runs a 4th context in which every other position holds a different UNEQUAL pair on which the scalar predicate still holds (largest deviations first: exactly epsilon apart, exactly max_ulps apart, ...), so that every position deviates and the whole verdict is still that of the varied position: separates the per-element conjunction from a norm / sum of differences; (f) 'self' runs: the very same object on both sides (x.abs_diff_eq(&x, ..)), each position through the class alphabet and the first components of the near pairs, under all predicates and extreme tolerances: per element the scalar predicate of (a, a), which fails for NaN, for infinities under abs_diff_eq and under negative / NaN epsilon. non-trivial: the varied pair is not bit-identical",
         true, false, |s| {
             s.require_classes(&ALL_TYPES);
             s.require_classes(&["row Mat2", "row Mat3", "row Mat4", "col Mat2", "col Mat3", "col Mat4", "Quaternion", "f32", "f64", "defaults"]);
             for p in ["abs_diff_eq", "relative_eq", "ulps_eq", "near abs_diff_eq", "near relative_eq", "near ulps_eq", "int abs_diff_eq"] { for o in ["true", "false: varied lane only", "false: other lanes only", "false: both"] { s.require_classes(&[&format!("{}: {}", p, o)]); } }
             s.require_classes(&["i8", "u8", "i32", "int abs_diff_eq: panic: varied lane only"]);
+            for p in ["self abs_diff_eq", "self relative_eq", "self ulps_eq"] { for o in ["true", "false: varied lane only", "false: other lanes only", "false: both"] { s.require_classes(&[&format!("{}: {}", p, o)]); } }
+            for p in ["near abs_diff_eq", "near relative_eq", "near ulps_eq", "int abs_diff_eq"] { s.require_classes(&[&format!("{}: holds although every position deviates", p)]); }
+            s.require_classes(&["int self abs_diff_eq: true", "int self abs_diff_eq: false: both"]);
             let mut t = Tally::new();
             let th = s.thorough();
             macro_rules! ap { ($($T:ty),*) => { $(
@@ -1064,6 +1264,31 @@ fn main() {
             s.meta("thorough_class_alphabet", jd(&f64::classes_ext()));
             s.meta("float_class_alphabet", jd(&f64::classes()));
             s.meta("pairs_per_position", json!(f64::classes().len() * f64::classes().len()));
+        });
+
+    rep.section("approx lifts on an opaque probe element: element pairing, tolerance arguments, defaults",
+        "AbsDiffEq / RelativeEq / UlpsEq (and the ne forms) of the 13 vector types, 6 matrix types and Quaternion over a probe element type defined in the check: its scalar predicates hold exactly when called on (element k of self, element k of other) in this order AND with exactly the tolerances handed to the lifted form (epsilon 0.3, max_relative 0.7, max_ulps 11); `==` on probes is always true; its three defaults are pairwise different (0.125, 0.5, 7; for f32/f64 default_epsilon and default_max_relative are the same number). Cases: all pairs hold; each single left / right element failing; right operand rotated by one position; operands exchanged; x 10 tolerance settings (the accepted ones, exchanged epsilon/max_relative, the defaults instead of the passed values). The lifts are generic over the element type, so they can reach an element only through these predicates and `==`. non-trivial: all",
+        true, false, |s| {
+            s.require_classes(&ALL_TYPES);
+            s.require_classes(&["row Mat2", "row Mat3", "row Mat4", "col Mat2", "col Mat3", "col Mat4", "Quaternion", "probe: defaults", "probe: holds", "probe: false: an element pair fails", "probe: false: tolerances are not the ones the element accepts"]);
+            let mut t = Tally::new();
+            for_all_vecs!(V => { probe_lift::<V<Probe>>(s, &mut t, <V<Probe> as VecN<Probe>>::NAME, <V<Probe> as VecN<Probe>>::N, &|e| <V<Probe> as VecN<Probe>>::from_elems(e.to_vec())); });
+            probe_lift::<rm::Mat2<Probe>>(s, &mut t, "row Mat2", 4, &|e| r2(&unflat::<Probe, 2>(e))); probe_lift::<cm::Mat2<Probe>>(s, &mut t, "col Mat2", 4, &|e| c2(&unflat::<Probe, 2>(e)));
+            probe_lift::<rm::Mat3<Probe>>(s, &mut t, "row Mat3", 9, &|e| r3(&unflat::<Probe, 3>(e))); probe_lift::<cm::Mat3<Probe>>(s, &mut t, "col Mat3", 9, &|e| c3(&unflat::<Probe, 3>(e)));
+            probe_lift::<rm::Mat4<Probe>>(s, &mut t, "row Mat4", 16, &|e| r4(&unflat::<Probe, 4>(e))); probe_lift::<cm::Mat4<Probe>>(s, &mut t, "col Mat4", 16, &|e| c4(&unflat::<Probe, 4>(e)));
+            probe_lift::<Quaternion<Probe>>(s, &mut t, "Quaternion", 4, &|e| Quaternion { x: e[0], y: e[1], z: e[2], w: e[3] });
+            flush(s, &t);
+        });
+    rep.section("wrapping lifts on Wrapping<i8> / Wrapping<u8> elements",
+        "Wrapping{Add,Sub,Mul,Neg} on Vec3, Vec8, Rgba over std::num::Wrapping<i8> and Wrapping<u8> (the element types besides the primitive integers for which num_traits implements a lifted operation): each position through (every 8-bit value x the boundary alphabet) in both orders, other positions lane-dependent or rotating; oracle: the scalar operation on the Wrapping element. non-trivial: all",
+        true, false, |s| {
+            s.require_classes(&["Vec3", "Vec8", "Rgba", "Wrapping<i8>", "Wrapping<u8>", "wrapping_add: plain", "wrapping_sub: plain", "wrapping_mul: plain", "wrapping_neg: plain"]);
+            let mut t = Tally::new();
+            let (ai, bi): (Vec<Wrapping<i8>>, Vec<Wrapping<i8>>) = (all_values::<i8>().into_iter().map(Wrapping).collect(), boundary::<i8>().into_iter().map(Wrapping).collect());
+            let (au, bu): (Vec<Wrapping<u8>>, Vec<Wrapping<u8>>) = (all_values::<u8>().into_iter().map(Wrapping).collect(), boundary::<u8>().into_iter().map(Wrapping).collect());
+            wrapping_elems::<Vec3<Wrapping<i8>>, _>(s, &mut t, "Wrapping<i8>", &ai, &bi); wrapping_elems::<Vec8<Wrapping<i8>>, _>(s, &mut t, "Wrapping<i8>", &ai, &bi); wrapping_elems::<Rgba<Wrapping<i8>>, _>(s, &mut t, "Wrapping<i8>", &ai, &bi);
+            wrapping_elems::<Vec3<Wrapping<u8>>, _>(s, &mut t, "Wrapping<u8>", &au, &bu); wrapping_elems::<Vec8<Wrapping<u8>>, _>(s, &mut t, "Wrapping<u8>", &au, &bu); wrapping_elems::<Rgba<Wrapping<u8>>, _>(s, &mut t, "Wrapping<u8>", &au, &bu);
+            flush(s, &t);
         });
 
     rep.section("mint conversions keep element positions (opaque symbols)",
@@ -1104,14 +1329,15 @@ fn main() {
         });
     #[cfg(feature = "az")]
     rep.section("az casts on vectors (az / checked_as / saturating_as / wrapping_as / overflowing_as / unwrapped_as)",
-        "the six az-style casts on the 13 vector types for 4 core pairs (i16->i8, i8->u8, f32->u8; u16->f32 with the three casts az defines towards floats: az, checked_as, unwrapped_as) and 7 further pairs on Vec4, Vec8, Rgba (i16->u8, u8->i8, f32->i8, f64->u16, i64->u32, f64->i16; i32->f64 with three casts): each element position through the source class alphabet (thorough: the sweep alphabet: every 8-bit value, a +-1 comb of the 16-bit values, +-2^k+-1 for every k, the float high-16-bit pattern comb) in 3 contexts (others benign; one other element failing; others rotating). Oracle per element: the az free function on the scalar (az::cast, checked_cast, saturating_cast, wrapping_cast, overflowing_cast, unwrapped_cast, compiled with debug assertions like vek); None iff some element is None; flag = OR of element flags; panic iff the scalar cast panics on some element. non-trivial: element non-zero or failing",
+        "the six az-style casts on the 13 vector types for 4 core pairs (i16->i8, i8->u8, f32->u8; u16->f32 with the three casts az defines towards floats: az, checked_as, unwrapped_as) and 7 further pairs on Vec4, Vec8, Rgba (i16->u8, u8->i8, f32->i8, f64->u16, i64->u32, f64->i16; i32->f64 with three casts): each element position through the source class alphabet (thorough: the sweep alphabet: every 8-bit value, a +-1 comb of the 16-bit values, +-2^k+-1 for every k, the float high-16-bit pattern comb) in 3 contexts (others benign; one other element failing; others rotating). Oracle per element: the az free function on the scalar (az::cast, checked_cast, saturating_cast, wrapping_cast, overflowing_cast, unwrapped_cast, compiled with debug assertions like vek); None iff some element is None; flag = OR of element flags; panic iff the scalar cast panics on some element. Each cast both through the inherent method and through the az trait form it delegates to (az::Cast::cast etc. on the vector types). non-trivial: element non-zero or failing",
         true, false, |s| {
             s.require_classes(&ALL_TYPES);
             s.require_classes(&["az: plain", "az: panic: varied lane only", "az: panic: other lanes only", "az: panic: both",
                 "checked_as: plain", "checked_as: None: varied lane only", "checked_as: None: other lanes only", "checked_as: None: both",
                 "saturating_as: plain", "wrapping_as: plain", "wrapping_as: panic: varied lane only", "wrapping_as: panic: other lanes only",
                 "overflowing_as: plain", "overflowing_as: flag: varied lane only", "overflowing_as: flag: other lanes only", "overflowing_as: flag: both",
-                "unwrapped_as: plain", "unwrapped_as: panic: varied lane only", "unwrapped_as: panic: other lanes only", "unwrapped_as: panic: both"]);
+                "unwrapped_as: plain", "unwrapped_as: panic: varied lane only", "unwrapped_as: panic: other lanes only", "unwrapped_as: panic: both",
+                "Cast::cast: plain", "CheckedCast::checked_cast: None: both", "UnwrappedCast::unwrapped_cast: panic: both", "SaturatingCast::saturating_cast: plain", "WrappingCast::wrapping_cast: plain", "OverflowingCast::overflowing_cast: flag: both"]);
             let mut t = Tally::new();
             az_vecs!(s, &mut t, i16 => i8; Vec2, Vec3, Vec4, Vec8, Vec16, Vec32, Vec64, Extent2, Extent3, Rgb, Rgba, Uv, Uvw);
             az_vecs!(s, &mut t, i8 => u8; Vec2, Vec3, Vec4, Vec8, Vec16, Vec32, Vec64, Extent2, Extent3, Rgb, Rgba, Uv, Uvw);
